@@ -544,3 +544,9 @@ Qed.
 Lemma naive_not_total :
   exists f nv, to_cnf_naive f nv = Err ETypeError.
 Proof. exists (FNot (FIf (FVar 1) (FVar 2))), 3. vm_compute. reflexivity. Qed.
+
+Lemma ex_naive :
+  to_cnf_naive (FIff (FVar 1) (FAnd [FVar 2; FVar (-3)])) 4 =
+    Ok (NAnd [NOr [NNot (NVar (-3)); NVar 1; NNot (NVar 2)]; NOr [NVar (-3); NNot (NVar 1)];
+              NOr [NNot (NVar 1); NVar 2]], 4).
+Proof. vm_compute. reflexivity. Qed.
